@@ -308,4 +308,4 @@ Definition types_ok (ops : list op) : bool :=
   forallb (fun x => match x with OMake _ sz al _ _ => type_ok sz al | _ => true end) ops.
 
 (* a concrete oracle to execute the model with *)
-Definition oracle0 : oracle := mkOracle (fun i => 64 * (Z.of_nat i + 3)) (fun K b => K * (b + 5)) (fun b => 16 * b + 4096 + 8).
+Definition oracle0 : oracle := mkOracle (fun i => 64 * (Z.of_nat i + 3)) (fun K b => K * (b + 5)) (fun b => 16 * (b mod 1000000) + 4096 + 8).
